@@ -538,6 +538,7 @@ func (p *Printer) rightParen(pos Pos) {
 	}
 	p.w.WriteByte(')')
 	p.wantSpace = spaceRequired
+	p.wroteSemi = false // see semiRsrv
 }
 
 // closingParen prints a closing parenthesis at closePos, separating it from a
@@ -566,6 +567,9 @@ func (p *Printer) semiRsrv(s string, pos Pos) {
 	}
 	p.w.WriteString(s)
 	p.wantSpace = spaceRequired
+	// The separator written for the last statement inside the construct (e.g. the
+	// "&" of "do foo & done") does not separate the construct from what follows it.
+	p.wroteSemi = false
 }
 
 func (p *Printer) flushComments() {
